@@ -1,5 +1,6 @@
 import TvCore.Props.WorldLinks
 import TvCore.Props.C03
+import TvCore.Props.C03Sets
 #print axioms TV.C03.fixed
 #print axioms TV.C03.witness_rand_overrides_explicit
 #print axioms TV.C03.partial_nocoins
@@ -11,3 +12,7 @@ import TvCore.Props.C03
 #print axioms TV.WorldLinks.linkEnqueue_other
 #print axioms TV.WorldLinks.onLink_other
 #print axioms TV.WorldLinks.onLink_hosts
+#print axioms TV.C03Sets.partitionOneway_stable
+#print axioms TV.C03Sets.partitionOneway_sets
+#print axioms TV.C03Sets.inner_sets
+#print axioms TV.C03Sets.partition_oneway_sets
